@@ -33,6 +33,14 @@ FAILING = [
     ("readonly-target", "RO[...] = c1"),
     ("einsum-bad", "mg.einsum('ijk->i', {s})"),
 ]
+# in-place statements that must fail when the memory they would write to is natively read-only
+RO_FAILING = [
+    ("ro-setitem", "{s}[...] = c1"),
+    ("ro-setitem-slice", "{s}[:1] = y0"),
+    ("ro-iop", "{s} *= k"),
+    ("ro-out", "mg.add({s}, c1, out={s})"),
+    ("ro-out-where", "mg.multiply({s}, y0, out={s}, where=Mt)"),
+]
 
 
 def cases(tier):
@@ -58,6 +66,19 @@ def cases(tier):
         size = 120
         for i in range(0, len(items), size):
             out.append({"name": "%s/%d" % (base, i), "base": base, "items": items[i:i + size]})
+        # read-only base: programs made of views / non-view ops and consumers only; every in-place statement fails
+        items = []
+        for h in (1, 2):
+            for p in vp.programs(base, h, quick=quick, require_inplace=False):
+                if any(vp.is_inplace(l) for l in p):
+                    continue
+                names = ["t"] + [l.split(" = ")[0] for l in p]
+                prog = list(p) + ["r0 = (%s * q[0]).sum()" % names[-1], "r1 = (t * t * q[1]).sum()", "L = r1 + r0"]
+                for pos in range(0, len(p) + 2):
+                    for fname, _ in RO_FAILING:
+                        items.append((prog, pos, fname))
+        for i in range(0, len(items), size):
+            out.append({"name": "%s-ro/%d" % (base, i), "base": base, "ro": True, "items": items[i:i + size]})
     return out
 
 
@@ -87,21 +108,21 @@ def snapshot(env, mg):
     return snap
 
 
-def run_item(mg, base, prog, pos, fname, res):
+def run_item(mg, base, prog, pos, fname, res, ro=False):
     engine = eng_mod.Engine(skip_ties=True)
     engine.reset_fn = lib.reset_state
     shape = vp.BASES[base]
-    ftpl = dict(FAILING)[fname]
+    ftpl = dict(FAILING + RO_FAILING)[fname]
 
     def execute(with_failure):
-        S = vp.Setup(shape, mg)
+        S = vp.Setup(shape, mg, ro_base=ro)
         T = S.env_mg()
         T["BAD7"] = np.ones(7)
         T["BAD7T"] = np.ones(7)
         T["BADMASK"] = np.ones(7, dtype=bool)
-        ro = np.array(symarr("ro", (2,)), dtype=object)
-        ro.flags.writeable = False
-        T["RO"] = mg.Tensor(ro, copy=False, constant=False)
+        ro_arr = np.array(symarr("ro", (2,)), dtype=object)
+        ro_arr.flags.writeable = False
+        T["RO"] = mg.Tensor(ro_arr, copy=False, constant=False)
         raised = None
         snap_after = None
         for i, ln in enumerate(prog):
@@ -110,7 +131,7 @@ def run_item(mg, base, prog, pos, fname, res):
                 if with_failure:
                     s = names[-1 - (pos % 2 if len(names) > 1 else 0)]
                     try:
-                        exec(ftpl.format(s=s), T)
+                        vp.run_line(ftpl.format(s=s, t=s), T)
                         raised = False
                     except Exception as e:  # the statement is expected to fail
                         raised = type(e).__name__
@@ -170,7 +191,7 @@ def run_item(mg, base, prog, pos, fname, res):
     return None
 
 
-def replay_source(base, prog, pos, fname):
+def replay_source(base, prog, pos, fname, ro=False):
     shape = vp.BASES[base]
     return '''import sys
 import numpy as np
@@ -184,7 +205,7 @@ def tgt(line):
     h = line.split("=")[0].strip()
     for s in ("[", ".", " "): h = h.split(s)[0]
     return h
-PROG = %r; POS = %d; FTPL = %r; NAMES_AT = %r
+PROG = %r; POS = %d; FTPL = %r; NAMES_AT = %r; RO_BASE = %r
 TN = ("t", "v", "w", "u", "y0", "yv", "y2")
 def snap(T):
     live = [n for n in TN if n in T and isinstance(T[n], mg.Tensor)]
@@ -197,7 +218,9 @@ def snap(T):
     return s
 def run(fail):
     rng = np.random.RandomState(1)
-    T = {"mg": mg, "np": np, "t": mg.Tensor(rng.rand(*%r) + 0.5), "y0": mg.Tensor(1.25), "yv": mg.Tensor(rng.rand(%d) + 0.5), "y2": mg.Tensor(rng.rand(2) + 0.5),
+    t0 = rng.rand(*%r) + 0.5
+    if RO_BASE: t0.flags.writeable = False
+    T = {"mg": mg, "np": np, "t": mg.Tensor(t0, copy=not RO_BASE), "y0": mg.Tensor(1.25), "yv": mg.Tensor(rng.rand(%d) + 0.5), "y2": mg.Tensor(rng.rand(2) + 0.5),
          "k": np.array(0.75), "c1": np.array(2.5), "c2": np.array(1.5), "q": [np.array(1.5), np.array(2.5), np.array(3.5)],
          "BAD7": np.ones(7), "BAD7T": np.ones(7), "BADMASK": np.ones(7, dtype=bool)}
     ro = np.array([1.0, 2.0]); ro.flags.writeable = False
@@ -207,7 +230,8 @@ def run(fail):
         if i == POS:
             if fail:
                 s = NAMES_AT[-1 - (POS %% 2 if len(NAMES_AT) > 1 else 0)]
-                try: exec(FTPL.format(s=s), T)
+                if "Mt" in FTPL: T["Mt"] = mask_for(T[s].shape)
+                try: exec(FTPL.format(s=s, t=s), T)
                 except Exception as e: raised.append(type(e).__name__)
             s1 = snap(T)
         if "Mt" in ln: T["Mt"] = mask_for(T[tgt(ln)].shape)
@@ -227,7 +251,7 @@ if ra:
     if roa: bad.append("read-only array became writeable")
 print("raised:", ra); print(bad)
 print('REPRODUCED' if bad else 'NOT-REPRODUCED'); sys.exit(1 if bad else 0)
-''' % (list(prog), pos, dict(FAILING)[fname], live_names(prog, pos), shape, shape[-1])
+''' % (list(prog), pos, dict(FAILING + RO_FAILING)[fname], live_names(prog, pos), bool(ro), shape, shape[-1])
 
 
 def run_case(spec, tier):
@@ -237,7 +261,7 @@ def run_case(spec, tier):
     for k, (prog, pos, fname) in enumerate(spec["items"]):
         res["programs"] += 1
         try:
-            r = run_item(mg, spec["base"], prog, pos, fname, res)
+            r = run_item(mg, spec["base"], prog, pos, fname, res, ro=spec.get("ro", False))
         except eng_mod.Budget as e:
             r = ("unknown", str(e))
         if r is None:
@@ -247,18 +271,18 @@ def run_case(spec, tier):
             res["status"] = common.INCONCLUSIVE
             res["notes"].append("%s @%d %s: %s" % ("; ".join(prog), pos, fname, msg))
             continue
-        path = common.write_replay(PROP, gradcase._safe("%s_%d" % (spec["name"], k)), replay_source(spec["base"], prog, pos, fname))
+        path = common.write_replay(PROP, gradcase._safe("%s_%d" % (spec["name"], k)), replay_source(spec["base"], prog, pos, fname, spec.get("ro", False)))
         ok, out = common.run_replay(path)
         if ok:
             res["status"] = common.VIOLATION
             res["violations"].append({"signature": "%s:%s" % (fname, msg[:40]), "replay": path,
-                                      "summary": "program `%s`, failing statement `%s` inserted before statement %d: %s"
-                                      % ("; ".join(prog), dict(FAILING)[fname], pos + 1, msg)})
+                                      "summary": "program `%s`%s, failing statement `%s` inserted before statement %d: %s"
+                                      % ("; ".join(prog), " on a natively read-only base" if spec.get("ro") else "", dict(FAILING + RO_FAILING)[fname], pos + 1, msg)})
         else:
             res["status"] = common.INCONCLUSIVE
             res["notes"].append("did not reproduce: `%s` @%d %s: %s :: %s" % ("; ".join(prog), pos, fname, msg, (out or "")[-300:]))
     prog, pos, fname = spec["items"][0]
-    res["sample"] = {"program": prog, "failing_statement": dict(FAILING)[fname], "inserted_before_statement": pos + 1}
+    res["sample"] = {"program": prog, "failing_statement": dict(FAILING + RO_FAILING)[fname], "inserted_before_statement": pos + 1}
     return res
 
 
